@@ -185,6 +185,7 @@ generate_from_impls only appends choice_from_impl_template items after the uncha
 C19.derives: the derives rasn needs are always present (REQUIRED_DERIVES), user derives are merged without duplicates, and every type item goes through join_annotations(.., is_type_annotation = true).".into();
     ctx.assumptions = vec!["audit/config_reads.json lists the documented readers of each option".into()];
     ctx.rule("who-may-read table; branch delta of quote! templates; derive set facts");
+    config_defaults(m, ctx);
 
     let cfg = match m.find_struct("Config", Some("generator::rasn")) {
         Ok(c) => c,
@@ -758,5 +759,41 @@ fn derives(m: &Model, ctx: &mut Ctx) {
                 Err(e) => ctx.fail_closed("C19.derives", &format!("[{}]: {}", key, e)),
             }
         }
+    }
+}
+
+
+/// C19.defaults: what a user gets who sets no option is part of what the options document — opaque open types, exact import
+/// lists, no From impls ("disabled by default"), std bindings, no custom imports, and the documented derive line. The
+/// `Default` impl of the backend's Config is evaluated and compared with the documentation of the fields.
+fn config_defaults(m: &Model, ctx: &mut Ctx) {
+    use crate::eval::{Env, Evaluator, Val};
+    let rule = "C19.defaults";
+    let Some(f) = m.fns.iter().find(|f| f.name == "default" && f.self_ty.as_deref() == Some("Config") && f.module.starts_with("generator::rasn")) else {
+        ctx.fail_closed(rule, "anchor not found: Default for generator::rasn::Config");
+        return;
+    };
+    let consts = const_resolver(m);
+    let ev = Evaluator { consts: &consts, call_hook: &crate::eval::no_hook, inline: None };
+    match ev.eval_fn_body(&f.block, &mut Env::new()) {
+        Ok(Val::Ctor(_, _, fl)) => {
+            let want: Vec<(&str, Val, &str)> = vec![
+                ("opaque_open_types", Val::Bool(true), "open types are opaque unless asked otherwise (the non-opaque code is documented as experimental)"),
+                ("default_wildcard_imports", Val::Bool(false), "import lists name exactly the imported symbols unless the option is set"),
+                ("generate_from_impls", Val::Bool(false), "\"disabled by default\""),
+                ("no_std_compliant_bindings", Val::Bool(false), "std bindings (LazyLock) unless asked otherwise"),
+                ("custom_imports", Val::List(vec![]), "no use line nobody asked for"),
+                ("type_annotations", Val::List(vec![Val::Str("#[derive(AsnType, Debug, Clone, Decode, Encode, PartialEq, Eq, Hash)]".into())]), "\"Default: vec![#[derive(AsnType, Debug, Clone, Decode, Encode, PartialEq, Eq, Hash)]]\""),
+            ];
+            for (k, v, why) in want {
+                ctx.oblige(rule, k, true);
+                if fl.get(k) != Some(&v) {
+                    ctx.violate(rule, &format!("default:{}", k), &f.file, f.line, &format!("Config::default().{} is {}, documented {} — {}: bindings made with the default configuration change without any option being set", k, fl.get(k).map(|x| x.show()).unwrap_or("<missing>".into()), v.show(), why));
+                }
+            }
+            ctx.floor("C19.defaults/fields", fl.len(), 6);
+        }
+        Ok(o) => ctx.fail_closed(rule, &format!("Config::default() evaluates to {}", o.show().chars().take(100).collect::<String>())),
+        Err(e) => ctx.fail_closed(rule, &format!("[Config::default]: {}", e)),
     }
 }
